@@ -13,6 +13,10 @@ import subprocess
 
 from .common import *
 
+# other public routes to this property's operations (check.py step 2d): the neighbour generator's requests whose
+# operation matches are part of this run, answered by the neighbour's harness bin
+NEIGHBOURS = {"C18": r"nt_(from|to)_(be|le)\b"}
+
 NIGHTLY = True  # to_*_bytes / from_*_bytes need bnum's `nightly` feature (cargo +nightly)
 
 # the big-endian target the harness is interpreted for (Miri needs no linker / emulator for it)
